@@ -155,6 +155,9 @@ func scenarios(tier string) (out []*Scenario) {
 	// alias-declared interface literals with same-named methods (shared full method names)
 	add(Scenario{Args: []string{"AliasA", "AliasB"}})
 	add(Scenario{Args: []string{"AliasB", "AliasA"}, Stub: true, SkipEnsure: true, Resets: true})
+	// an alias of an instantiated generic interface (not generic itself)
+	add(Scenario{Args: []string{"AliasInst", "GOne"}})
+	add(Scenario{Args: []string{"AliasInst"}, PkgMode: "other", SkipEnsure: true, Stub: true})
 	// witnesses of known findings (see /verif/KNOWN_FINDINGS.jsonl)
 	add(Scenario{Src: "kfcomparable", Args: []string{"Keyed"}, OnlyProps: []string{"C09"}})
 	add(Scenario{Src: "kfnames", Args: []string{"KFD7"}, OnlyProps: []string{"C12"}})
@@ -691,7 +694,8 @@ func (s2 *Stage2) checkMockTypes(mi *mockInfo) {
 	var ifaceT types.Type = iface
 	var mockT types.Type = mock
 	var itp *types.TypeParamList
-	if n, ok := iface.(*types.Named); ok {
+	if n, ok := iface.(*types.Named); ok && (n.TypeArgs() == nil || n.TypeArgs().Len() == 0) {
+		// (an instantiated type reports the parameters of its origin; it is not generic itself)
 		itp = n.TypeParams()
 	}
 	mtp := mock.TypeParams()
